@@ -32,6 +32,9 @@ Entries == {"conelp", "lp", "socp", "sdp", "coneqp", "qp", "cpl", "cp", "gp", "o
 NoOpts == [k \in Keys |-> Absent]
 WellFormed(m) == \A k \in Keys : m[k] = Absent \/ m[k] \in Tokens(k)
 
+CONSTANTS MaxSet      \* at most this many keys set in the global dictionary / in a per-call dictionary
+Size(m) == Cardinality({k \in Keys : m[k] # Absent})
+
 VARIABLES global,      \* the dictionary solvers.options (projected on Keys)
           last         \* expected outcome of the last call: [exc, inforce]
 vars == <<global, last>>
@@ -53,25 +56,24 @@ Init == global = NoOpts /\ last = NoCall
 \* the user edits the global dictionary
 SetGlobal(k, t) == /\ t \in Tokens(k) \cup {Absent}
                    /\ global' = [global EXCEPT ![k] = t]
+                   /\ Size(global') <= MaxSet
                    /\ last' = NoCall
 
 \* a solver call: the global dictionary is not modified (C09: no global state is modified)
 Call(e, peropts, usePer) ==
     /\ WellFormed(peropts)
+    /\ (usePer \/ peropts = NoOpts)
     /\ last' = Expected(peropts, usePer)
     /\ UNCHANGED global
 
-CONSTANTS MaxSet      \* at most this many keys set in the global dictionary / in a per-call dictionary
-Size(m) == Cardinality({k \in Keys : m[k] # Absent})
 Single(k, t) == [NoOpts EXCEPT ![k] = t]
 KT == UNION {{<<k, t>> : t \in Tokens(k)} : k \in Keys}
 Dicts1 == {NoOpts} \cup {Single(kt[1], kt[2]) : kt \in KT}
 Dicts2 == Dicts1 \cup {[Single(a[1], a[2]) EXCEPT ![b[1]] = b[2]] : <<a, b>> \in {ab \in KT \X KT : ab[1][1] # ab[2][1]}}
 PerCallDicts == IF MaxSet <= 1 THEN Dicts1 ELSE Dicts2
 
-Next == \/ \E k \in Keys, t \in UNION {Tokens(kk) : kk \in Keys} \cup {Absent} :
-              t \in Tokens(k) \cup {Absent} /\ SetGlobal(k, t) /\ Size(global') <= MaxSet
-        \/ \E e \in Entries, m \in PerCallDicts, u \in BOOLEAN : (u \/ m = NoOpts) /\ Call(e, m, u)
+Next == \/ \E k \in Keys, t \in UNION {Tokens(kk) : kk \in Keys} \cup {Absent} : SetGlobal(k, t)
+        \/ \E e \in Entries, m \in PerCallDicts, u \in BOOLEAN : Call(e, m, u)
 Spec == Init /\ [][Next]_vars
 
 TypeOK == WellFormed(global)
